@@ -11,7 +11,7 @@ RULE = ("enum: every +/-/0 pattern with N<=7 (quick) / N<=9 (thorough), spelled,
         "hydropathy, composition with default groups, composition with 1-5 user groups in mixed case}. Oracle: row 0 = 1..N; the value of the "
         "window starting at 0-based residue i sits at column i+floor((w-1)/2), floor((w-1)/2) leading and ceil((w-1)/2) trailing zeros; one row "
         "per group; w=N => the single value equals the whole-sequence parameter; get_delta() = mean over w in {5,6} of the mean squared deviation "
-        "of the w-profile's window values from the global sigma (0 when w>N); w>N => exception for all five entry points. Non-trivial: 1<w<N; "
+        "of the w-profile's window values from the global sigma (0 when w>N); w>N => exception for all five entry points. Half of the random cases run after a generated warm-up history of other API calls on the same object; user group lists may repeat a group. Non-trivial: 1<w<N; "
         "distinct by (sequence, w, profile).")
 ASSUMPTIONS = ["window sizes are positive integers (the statement's domain 1<=w<=N and the rejected range w>N)",
                "hydropathy profile uses the 0-1 (Uversky-normalised) Kyte-Doolittle scale, as get_uversky_hydropathy does", "tolerance 1e-9"]
@@ -73,7 +73,7 @@ def check(ctx, case):
         if cond:
             cl.append(name)
     ctx.count(case, nontrivial=(1 < w < N), classes=cl)
-    o = util.sp(seq)
+    o = util.spw(seq, case)
     if kind in SCALAR:
         call = lambda: getattr(o, SCALAR[kind])(w)
     elif kind == "comp-default":
@@ -125,7 +125,14 @@ def hyp_case(draw, big):
     case = {"seq": seq, "w": w, "kind": kind}
     if kind == "comp-user":
         groups = draw(st.lists(st.lists(st.sampled_from(list(ref.AA + "acdefghiklmnpqrstvwy")), min_size=1, max_size=6).map("".join), min_size=1, max_size=5))
+        if draw(st.integers(0, 3)) == 0:
+            # a repeated group (same residues, possibly other case/order) still gets its own row
+            g = draw(st.sampled_from(groups))
+            g2 = "".join(draw(st.permutations(list(g))))
+            groups.insert(draw(st.integers(0, len(groups))), g2.swapcase() if draw(st.booleans()) else g2)
         case["groups"] = groups
+    if len(seq) <= 60:
+        case["warm"] = draw(gens.warmups())
     return case
 
 
